@@ -29,6 +29,11 @@ Inductive walk (g : graph) (d : dir) : nat -> list nat -> nat -> Prop :=
 Definition route_ok (g : graph) (d : dir) (s t : nat) (r : list nat) : Prop :=
   r <> [] /\ walk g d s r t /\ List.NoDup r.
 
+(* a route of a k-shortest-paths algorithm, as far as C01 judges it (count, distinctness, order and looplessness
+   of the alternatives belong to C13): non-empty, leaves s, chained, arrives at t, every edge exists *)
+Definition kroute_ok (g : graph) (d : dir) (s t : nat) (r : list nat) : Prop :=
+  r <> [] /\ walk g d s r t.
+
 (* edge-oriented: the first edge is the origin edge, the last one the destination edge, chained, no edge twice *)
 Definition eroute_ok (g : graph) (d : dir) (e1 e2 : nat) (r : list nat) : Prop :=
   exists ed1 ed2 mid, get_edge g e1 = Some ed1 /\ get_edge g e2 = Some ed2 /\
@@ -85,6 +90,9 @@ Fixpoint walk_b (g : graph) (d : dir) (a : nat) (r : list nat) (t : nat) : bool 
 
 Definition check_route (g : graph) (d : dir) (s t : nat) (r : list nat) : bool :=
   negb (match r with [] => true | _ => false end) && walk_b g d s r t && nodupb r.
+
+Definition check_kroute (g : graph) (d : dir) (s t : nat) (r : list nat) : bool :=
+  negb (match r with [] => true | _ => false end) && walk_b g d s r t.
 
 Definition check_eroute (g : graph) (d : dir) (e1 e2 : nat) (r : list nat) : bool :=
   match get_edge g e1, get_edge g e2 with
